@@ -323,20 +323,132 @@ pub fn check(tier: Tier) -> i32 {
         rep.merge(r);
         *counters.entry("history-compilations".into()).or_default() += n;
     }
+    // ---------------- (d) derive == CLI, behaviourally: the same states compiled twice into a
+    // Rust harness, once from the text `pdlc` prints and once through the real
+    // #[pdl_derive::pdl_inline] attribute macro; both harnesses run the observation mode (all
+    // explored values encoded, the bounded byte-string space decoded) and the two observation
+    // documents must be identical
+    {
+        let picked: Vec<Selected> = pick_derive_states(tier, &sel.states);
+        let ids: Vec<usize> = picked.iter().map(|s| s.id).collect();
+        let observe = |h: &mut crate::rustgen::Harness| -> Result<Vec<serde_json::Value>, String> {
+            if !crate::rustgen::build(h) {
+                return Err("the harness does not build".into());
+            }
+            match crate::rustgen::run_task_checked(h, 0, 0, "C07", tier, &ids) {
+                crate::rustgen::TaskResult::Done(v) => Ok(v["observations"].as_array().cloned().unwrap_or_default()),
+                crate::rustgen::TaskResult::Died { how, .. } => Err(format!("the harness died: {how}")),
+                crate::rustgen::TaskResult::Machinery(m) => Err(m),
+            }
+        };
+        let mut h_cli = crate::rustgen::prepare_on(tier, Some(picked.clone()));
+        let cli = observe(&mut h_cli);
+        let mut h_der = crate::rustgen::prepare_derive(tier, picked.clone());
+        let der = observe(&mut h_der);
+        match (cli, der) {
+            (Ok(a), Ok(b)) => {
+                let key = |o: &serde_json::Value| (o["state"].as_u64().unwrap_or(0), o["big"].as_bool().unwrap_or(false));
+                let excluded_cli: Vec<(usize, String)> = h_cli.excluded.iter().map(|x| (x.0, x.1.clone())).collect();
+                for oa in &a {
+                    *counters.entry("derive-modules-compared".into()).or_default() += 1;
+                    let ob = b.iter().find(|x| key(x) == key(oa));
+                    let st = &picked[oa["state"].as_u64().unwrap_or(0) as usize];
+                    let n_ops: usize = oa["types"].as_array().map(|t| t.iter().map(|x| x["values"].as_array().map(|v| v.len()).unwrap_or(0) + x["inputs"].as_array().map(|v| v.len()).unwrap_or(0)).sum()).unwrap_or(0);
+                    *counters.entry("derive-operations-compared".into()).or_default() += n_ops;
+                    match ob {
+                        Some(ob) if ob["types"] == oa["types"] => {}
+                        Some(ob) => {
+                            // name the first type whose observations differ
+                            let ty = oa["types"].as_array().and_then(|ta| ta.iter().zip(ob["types"].as_array().map(|x| x.as_slice()).unwrap_or(&[])).find(|(x, y)| x != y).map(|(x, _)| x["name"].as_str().unwrap_or("").to_string())).unwrap_or_default();
+                            rep.report(Violation {
+                                property: "C11".into(),
+                                sig: "derive-macro-output-behaves-differently-from-cli-output".into(),
+                                detail: json!({"source": render::canonical(&st.desc), "big_endian": oa["big"], "first_differing_type": ty}),
+                            });
+                        }
+                        None => rep.report(Violation {
+                            property: "C11".into(),
+                            sig: "derive-macro-output-missing-where-cli-output-compiles".into(),
+                            detail: json!({"source": render::canonical(&st.desc), "big_endian": oa["big"], "derive_excluded": h_der.excluded.iter().map(|x| x.2.clone()).take(3).collect::<Vec<_>>()}),
+                        }),
+                    }
+                }
+                let _ = excluded_cli;
+            }
+            (Ok(_), Err(e)) => rep.report(Violation {
+                property: "C11".into(),
+                sig: format!("derive-harness-fails-where-cli-harness-works why={}", e.chars().take(60).collect::<String>()),
+                detail: json!({"why": e, "sources": picked.iter().map(|s| render::canonical(&s.desc)).collect::<Vec<_>>()}),
+            }),
+            (Err(e), _) => {
+                eprintln!("machinery: derive comparison: {e}");
+                return 2;
+            }
+        }
+        ev.set("derive_states", json!(picked.len()));
+    }
     ev.set("histories", json!(total));
     ev.set("traces_validated_against_impl", json!(counters.values().sum::<usize>()));
     ev.set("outcomes", json!(counters));
     ev.set("exhaustive", json!(true));
     ev.set("samples", json!([{"seed_run": "VERIF_HASH_SEED=3 LD_PRELOAD=work/getrandom_shim.so pdlc --output-format rust t.pdl", "source": proc_states.get(3).map(|s| render::canonical(&s.desc))}]));
-    ev.set("rule", json!(format!("(b) for {} states x {{rust, python, cxx, json}}: the real pdlc under an interposed getrandom with VERIF_HASH_SEED in 0..{seeds} (the evidence reports how many iteration orders of 2/3/4-key std HashMaps that alphabet realises) must print identical bytes, identical to the in-process library call; (c) all {total} sequences of length {len} over {} (description, backend) pairs compiled in one process through one shared SourceDatabase must reproduce the single-shot outputs; (e) for every state with <= 3 leaf declarations every subset passed to --exclude-declaration must give the output of the source with those declarations deleted (rust, python, cxx)", proc_states.len(), alphabet.len())));
+    ev.set("rule", json!(format!("(b) for {} states x {{rust, python, cxx, json}}: the real pdlc under an interposed getrandom with VERIF_HASH_SEED in 0..{seeds} (the evidence reports how many iteration orders of 2/3/4-key std HashMaps that alphabet realises) must print identical bytes, identical to the in-process library call; (c) all {total} sequences of length {len} over {} (description, backend) pairs compiled in one process through one shared SourceDatabase must reproduce the single-shot outputs; (e) for every state with <= 3 leaf declarations every subset passed to --exclude-declaration must give the output of the source with those declarations deleted (rust, python, cxx); (d) {} states are compiled into two Rust harnesses, from the text pdlc prints and through #[pdl_derive::pdl_inline]: encoding every explored value and decoding the bounded byte-string space must give identical observations", proc_states.len(), alphabet.len(), if tier == Tier::Quick { 8 } else { 40 })));
     ev.assumptions = vec![
         "hash containers are only influenced through the hash seed (std RandomState via getrandom); hook-based permutation of every iteration point (DESIGN 6) is not built".into(),
-        "derive == CLI (clause of C11) is not checked yet: the macros call the same generate_tokens as the CLI; a behavioural comparison through #[pdl_inline] is planned".into(),
+        "derive == CLI is checked behaviourally on a small set of states (8 quick / 40 thorough): both harnesses execute the same enumerated operations and their raw observations must be identical; the #[pdl(file)] variant shares pdl_proc_macro's code path after the file is read and is not exercised separately".into(),
     ];
     let code = rep.finish(&mut ev);
     ev.write(&format!("{VERIF_DIR}/evidence"));
     println!("C11 {}: states={} process_states={} seeds={} violations={} known={} wall={:.1}s", tier_name(tier), sel.states.len(), proc_states.len(), seeds, ev.violations, ev.known, ev.start.elapsed().as_secs_f64());
     code
+}
+
+/// The states of part (d): per family the last Rust-supported selected state, then evenly spaced
+/// earlier ones, renumbered 0..n.
+fn pick_derive_states(tier: Tier, states: &[Selected]) -> Vec<Selected> {
+    let sel = SelView { states };
+        let n_derive = if tier == Tier::Quick { 8 } else { 40 };
+    let mut picked: Vec<Selected> = vec![];
+    let fams = ["BF", "AR", "PL", "OP", "ST", "IN", "INC", "EN", "MIX"];
+    let mut round = 0usize;
+    while picked.len() < n_derive && round < 8 {
+        for fam in fams {
+            let cands: Vec<&Selected> = sel
+                .states
+                .iter()
+                .filter(|s| s.family == fam && s.depth >= 1)
+                .filter(|s| rules::inline_groups(&s.desc).map(|i| unsupported(Lang::Rust, &i).is_none()).unwrap_or(false))
+                .collect();
+            if cands.is_empty() {
+                continue;
+            }
+            // last, then evenly spaced earlier ones
+            let k = cands.len() - 1 - (round * cands.len() / 8).min(cands.len() - 1);
+            let c = cands[k];
+            if !picked.iter().any(|p| p.desc == c.desc) && picked.len() < n_derive {
+                picked.push(Selected { id: picked.len(), family: c.family.clone(), depth: c.depth, desc: c.desc.clone() });
+            }
+        }
+        round += 1;
+    }
+    picked
+}
+
+struct SelView<'a> {
+    states: &'a [Selected],
+}
+
+/// `pdlmc build-derive <tier>`: build both harnesses of part (d) ahead of time (setup); the check
+/// regenerates identical sources and cargo has nothing left to do.
+pub fn build_derive(tier: Tier) -> bool {
+    let e = explore(tier);
+    let sel = select::select(&e, tier, Lang::Json, &|_, _| true);
+    let picked = pick_derive_states(tier, &sel.states);
+    let mut h_cli = crate::rustgen::prepare_on(tier, Some(picked.clone()));
+    let mut h_der = crate::rustgen::prepare_derive(tier, picked);
+    let a = crate::rustgen::build(&mut h_cli);
+    let b = crate::rustgen::build(&mut h_der);
+    a && b
 }
 
 fn b_kind(b: Backend) -> u8 {
